@@ -162,7 +162,15 @@ class SymCtx(_CtxBase):
     def assume(self, b):
         self.ex.assume(b)
 
-    def ensure(self, name, b, **info):
+    def ensure(self, name, b, excuse=None, **info):
+        """excuse = (finding id, region formula or None): while the finding is listed as open in
+        known_findings.json (and its stored witness still reproduces) the clause is checked outside
+        the region only; a different violation of the same clause is still refuted."""
+        if excuse is not None:
+            fid, region = excuse
+            if fid in os.environ.get("GVC_OPEN_FINDINGS", "").split(","):
+                b = bor(region, b) if region is not None else TRUE
+                info["excuse"] = fid
         self.ex.oblige(name, b, info)
 
     def stubs(self, **kw):
@@ -208,7 +216,7 @@ class NumCtx(_CtxBase):
         if not bool(b):
             raise ReplayNotApplicable("assumption false for the model")
 
-    def ensure(self, name, b, **info):
+    def ensure(self, name, b, excuse=None, **info):
         try:
             ok = bool(_np.all(b))
         except Exception:
